@@ -704,6 +704,11 @@ MEDDLY::dd_edge::iterator::iterator(const dd_edge &E, unsigned (*RNG)(unsigned))
     root_ev = E.getEdgeValue();
     root_node = E.getNode();
 
+    if (!F) {
+        // No forest (e.g., it was destroyed): stay an end iterator.
+        return;
+    }
+
     //
     // Seed the edge value array if needed
     //
@@ -853,6 +858,12 @@ void MEDDLY::dd_edge::iterator::restart(const dd_edge &E, const minterm* _mask)
     mask = _mask;
     root_ev = E.getEdgeValue();
     root_node = E.getNode();
+
+    if (!F) {
+        // No forest (e.g., it was destroyed): stay an end iterator.
+        atEnd = true;
+        return;
+    }
 
     //
     // Seed the edge value array if needed
